@@ -25,12 +25,12 @@ RULE = (
     "ediff1d to_begin/to_end; inner of vectors; outer; matmul of vv/vm/mv/mm/stacked shapes numpy accepts; det of "
     "1x1..4x4 and stacked matrices. Oracle: the numpy function on the object array of model elements (exact), "
     "mean = sum * Fraction(1,n) with float tolerance 1e-9, determinant by the Leibniz sum; spellings numpoly.f, "
-    "numpy.f, method, numpy.add.reduce / accumulate (explicit axis) must return model-equal results. "
+    "numpy.f, method, numpy.add.reduce / accumulate (axis spelled out, and axis omitted = axis 0) must return model-equal results. "
     "non-trivial = >= 2 elements with different monomials are combined (reduced axis length >= 2 / inner dimension >= 2)."
 )
 ASSUMPTIONS = [
     "ediff1d's to_begin/to_end have a kind numpy can cast to the array's (same kind, or int into float); diff's prepend/append may have any kind (numpy promotes)",
-    "ufunc.reduce/accumulate spellings are compared with an explicit integer axis (numpy's default axis=0 differs from sum's axis=None by definition)",
+    "ufunc.reduce/accumulate with the axis omitted reduce along axis 0 (numpy's definition), unlike sum/cumsum whose default is axis=None: the axis-omitted ufunc spelling is compared with the axis=0 result",
     "a case numpy rejects on the object array is discarded and counted",
 ]
 
@@ -144,8 +144,6 @@ def check_case(case, ctx):
     expected_box.append(expected)
     results = {}
     for sp in spellings_of(rec, args, kw):
-        if sp in ("reduce", "accumulate") and not isinstance(kw.get("axis"), int):
-            continue
         if sp == "method" and fn == "cumsum":
             pass
         try:
